@@ -17,7 +17,7 @@ SOLVERS = [
     ("cvc5-1.0", ["/usr/bin/cvc5", "--lang=smt2", "--strings-exp", "--tlimit={TMS}"]),
     ("z3-4.8", ["/usr/bin/z3", "-smt2", "-T:{T}"]),
 ]
-TIMEOUT = int(os.environ.get("PYVC_TIMEOUT", "40"))
+TIMEOUT = int(os.environ.get("PYVC_TIMEOUT", "90"))  # typical query: 10-300 ms; the slowest on the unchanged tree: ~5 s unloaded
 
 
 def _symbols(e, acc, seen):
